@@ -331,7 +331,7 @@ Qed.
 (* BlockListCollectMoves of one context *)
 Lemma collect_list_inv v dc p :
   VamInvA v [] [] -> Defrag.c_moves (dc_ctx dc) = [] -> PassProofs.pass_running p ->
-  VamGran.GV v ->
+  VamGran.GV c v ->
   let '(v', r) := collect_list c v dc p in
   match r with
   | OK (dc', p') =>
@@ -382,7 +382,7 @@ Qed.
 
 (* BeginDefragPass: the accounting half (the structural half is VamDefragPass.pass_loop_inv) *)
 Lemma pass_loop_acct fuel : forall v run p,
-  VamInvA v [] [] -> run_idle run -> 0 <= dr_max_bytes run -> 0 <= dr_max_allocs run -> PassProofs.pass_running p -> VamGran.GV v ->
+  VamInvA v [] [] -> run_idle run -> 0 <= dr_max_bytes run -> 0 <= dr_max_allocs run -> PassProofs.pass_running p -> VamGran.GV c v ->
   let '(v', run', r) := pass_loop c fuel v run p in
   match r with
   | OK _ => zlen (v_tab v') <= 4194304 -> AInv c v' []
@@ -445,7 +445,7 @@ Definition dexec_postA (v v' : vam) (run' : option dfrun) (r : out unit) : Prop 
   end.
 
 Lemma dexec_invA v run o :
-  VamInvA v [] [] -> VamGran.GV v -> drun_ok v run -> dop_ok v run o ->
+  VamInvA v [] [] -> VamGran.GV c v -> drun_ok v run -> dop_ok v run o ->
   let '(v', run', r, dr) := dexec c v run o in dexec_postA v v' run' r.
 Proof.
   intros HI HV Hr Hok. pose proof (va_s _ _ _ _ HI) as HS.
@@ -474,7 +474,7 @@ Proof.
 Qed.
 
 Theorem dstep_preservesA v run o f :
-  VamInvA v [] [] -> VamGran.GV v -> drun_ok v run -> dop_ok v run o ->
+  VamInvA v [] [] -> VamGran.GV c v -> drun_ok v run -> dop_ok v run o ->
   let '(v', run', r, calls, dr) := dstep c v run o f in
   r <> RPanic -> r <> RStuck -> zlen (v_tab v') <= 4194304 ->
   VamInvA v' [] [] /\ drun_ok v' run' /\ zlen (v_tab v) <= zlen (v_tab v').
@@ -486,7 +486,7 @@ Proof.
   assert (I0 : VamInvA v0 [] []) by (apply (VamInvA_mach_same c Hc Hmax Hlarge); [exact HI|apply Hms]).
   assert (Hr0 : drun_ok v0 run) by (destruct run as [rn|]; [apply run_ok_set_m; exact Hr|exact I]).
   assert (Hok0 : dop_ok v0 run o) by (destruct o; cbn in *; auto).
-  pose proof (dexec_invA v0 run o I0 (VamGran.GR_set_m v _ HV) Hr0 Hok0) as E. destruct (dexec c v0 run o) as (((v1 & run1) & r) & dr).
+  pose proof (dexec_invA v0 run o I0 (VamGran.GR_set_m c v _ HV) Hr0 Hok0) as E. destruct (dexec c v0 run o) as (((v1 & run1) & r) & dr).
   intros Hp Hs Hbound. cbn [v_tab set_m] in Hbound.
   destruct r as [[]|code| |]; cbn in Hp, Hs; try congruence; cbn in E; destruct (E Hbound) as (A & B & C0);
     (split; [apply (VamInvA_mach_same c Hc Hmax Hlarge); [exact A|apply Hms]|];
